@@ -296,10 +296,10 @@ pub fn gen_conc(rng: &mut Rng, count: u64, tier: &str) -> Vec<String> {
             sched.push(format!("c{}", rounds[p]));
             if rng.chance(1, 4) {
                 let dg = match rng.below(4) {
-                    0 => Packet::Ack(rng.below(3) as u16).serialize().unwrap(),
-                    1 => Packet::Data { block_num: 1, data: vec![9; 4] }.serialize().unwrap(),
-                    2 => Packet::Error { code: tftpd::ErrorCode::NotDefined, msg: "x".into() }.serialize().unwrap(),
-                    _ => Packet::Oack(vec![]).serialize().unwrap(),
+                    0 => raw_ack(rng.below(3) as u16),
+                    1 => raw_data(1, &[9; 4]),
+                    2 => raw_error(0, "x"),
+                    _ => raw_oack(&[]),
                 };
                 if rng.chance(1, 2) {
                     sched.push(format!("iL:{}", hex(&dg)));
